@@ -65,7 +65,6 @@ func newFQ(workers, depth, inCap, mode int) *fq {
 		gid := curGID()
 		f.mu.Lock()
 		ct, ok := f.cur[gid]
-		delete(f.cur, gid)
 		f.mu.Unlock()
 		id := -1
 		if ok {
